@@ -37,13 +37,25 @@ fn expected_case(world: &World, text: &str, mode: Mode) -> Value {
             }
             splits.push(v);
         }
+        let m = t.list.get(i);
+        let wi = m.get_word_info();
+        let raw = |v: &[sudachi::dic::word_id::WordId]| v.iter().map(|w| w.as_raw()).collect::<Vec<u32>>();
+        let word_info = json!({
+            "surface": wi.surface(), "head_word_length": wi.head_word_length(), "pos_id": wi.pos_id(), "normalized_form": wi.normalized_form(),
+            "dictionary_form_word_id": wi.dictionary_form_word_id(), "dictionary_form": wi.dictionary_form(), "reading_form": wi.reading_form(),
+            "a_unit_split": raw(wi.a_unit_split()), "b_unit_split": raw(wi.b_unit_split()), "word_structure": raw(wi.word_structure()),
+            "synonym_group_ids": wi.synonym_group_ids(),
+        });
         ms.push(json!({
+            "word_info": word_info,
             "surface": o.surface, "raw_surface": o.surface, "pos": o.pos, "pos_id": o.pos_id, "dictionary_form": o.dict_form,
             "normalized_form": o.norm, "reading_form": o.reading, "word_id": o.word_id, "dictionary_id": o.dic_id, "is_oov": o.is_oov,
             "synonym_group_ids": o.synonyms, "begin": o.begin_c, "end": o.end_c, "split_A": splits[0], "split_B": splits[1],
         }));
     }
-    json!({"text": text, "mode": mode_name(mode), "expected": ms})
+    // the list-level cost: null where the library itself cannot compute it (known finding D19 region)
+    let internal_cost = crate::report::guard(|| t.list.get_internal_cost()).ok();
+    json!({"text": text, "mode": mode_name(mode), "expected": ms, "internal_cost": internal_cost})
 }
 
 fn render_simple(obs: &[Obs], all: bool, out: &mut String) {
@@ -262,7 +274,7 @@ pub fn run(ctx: &Ctx, rep: &mut Report) {
                         rep.count("python_driver_errors", 1);
                     }
                 } else if let Ok(v) = serde_json::from_str::<Value>(stdout.trim()) {
-                    for k in ["cases", "morphemes", "fields_compared", "splits_compared", "lookups", "history_ops", "history_probes", "python_exceptions", "thread_results", "projection_checks", "pretokenizer_calls", "py_builds", "override_checks"] {
+                    for k in ["cases", "morphemes", "fields_compared", "splits_compared", "lookups", "history_ops", "history_probes", "python_exceptions", "thread_results", "projection_checks", "pretokenizer_calls", "py_builds", "override_checks", "word_infos_compared", "list_api_checks"] {
                         rep.count(&format!("py_{}", k), v[k].as_u64().unwrap_or(0));
                     }
                     if let Some(ms) = v["mismatches"].as_array() {
